@@ -494,6 +494,57 @@ pub fn replay_flow(case: &Value, rep: &mut Report) {
             _ => panic!("harness: unknown flow mode"),
         }
     }
+    // C11, "with shared weights": one training step later every repetition of every block still holds the weights of
+    // the first one (blocks without skips and without max-pool layers, which the library can train)
+    if mode == "fb" && !bool_of(&case["cfg"], "inskips") && !bool_of(&case["cfg"], "outskips") {
+        let trainable = layers.iter().all(|l| str_of(l, "kind") != "fb" || l["inner"].as_array().unwrap().iter().all(|i| str_of(i, "kind") != "pool"));
+        if let (true, Some(eval)) = (trainable, case["evals"].as_array().and_then(|a| a.first())) {
+            let x = spec_value_tensor(&eval["x"]);
+            rep.checks += 1;
+            let trained = guarded(|| {
+                net.set_objective(neurons::objective::Objective::MSE, None);
+                net.set_optimizer(neurons::optimizer::SGD::create(0.015625, None));
+                // a target of the prediction's own shape, different from the prediction
+                let y = net.predict(&x);
+                let mut t = y.clone();
+                t.add_inplace(&y);
+                t.add_inplace(&y);
+                net.learn(&vec![&x], &vec![&t], None, 1, 1, None);
+            });
+            match trained {
+                Err(e) => {
+                    rep.count("fb_training_step_refused", 1);
+                    rep.notes.push(format!("fb training step refused: net {} loops {}: {}", case["cfg"]["netid"], case["cfg"]["loops"], &e[..e.len().min(120)]));
+                }
+                Ok(()) => {
+                    rep.count("fb_training_steps", 1);
+                    for (i, l) in layers.iter().enumerate() {
+                        if str_of(l, "kind") != "fb" {
+                            continue;
+                        }
+                        let period = l["inner"].as_array().unwrap().len();
+                        let inner = verif::inner_layers(&net.layers[i]);
+                        for (j, il) in inner.iter().enumerate() {
+                            let (a, b) = (nets_flat(&verif::layer_params(&inner[j % period])), nets_flat(&verif::layer_params(il)));
+                            if a.iter().map(|v| v.to_bits()).collect::<Vec<u32>>() != b.iter().map(|v| v.to_bits()).collect::<Vec<u32>>() {
+                                rep.mismatch("C11", "repetitions_hold_different_weights_after_a_training_step", &id,
+                                             json!({"block": i, "unrolled_layer": j, "cfg": case["cfg"]}), case);
+                                return;
+                            }
+                        }
+                    }
+                }
+            }
+        }
+    }
+}
+
+fn nets_flat(p: &verif::Params) -> Vec<f32> {
+    let mut v = Vec::new();
+    if let Some(w) = &p.weights { v.extend(w.iter().flatten()); }
+    if let Some(b) = &p.bias { v.extend(b.iter()); }
+    if let Some(k) = &p.kernels { v.extend(k.iter().flatten().flatten().flatten()); }
+    v
 }
 
 // ------------------------------------------------------------------------------------------------
